@@ -60,7 +60,7 @@ pub struct Session {
     pub pipelined: bool,
 }
 
-const RULE: &str = "sessions of 5-60 requests drawn from the five tools with valid arguments (generated ledgers as DSL or JSON), failing calculations (uncovered sale, missing rate, unconfigured year, empty input, overflow), malformed arguments, unknown tool/method, tools/list, resources/list/read, ping, one notification; delivered fully pipelined or one at a time, then stdin closed; every session is run twice (as generated, and reversed one-at-a-time) and equal requests must get equal answers; non-trivial = >=1 failing request followed by >=1 succeeding one, or pipelined with >=10 requests; distinct by session hash";
+const RULE: &str = "sessions of 5-60 requests drawn from the five tools with valid arguments (generated ledgers as DSL or JSON), failing calculations (uncovered sale, missing rate, unconfigured year, empty input, overflow), malformed arguments, unknown tool/method, tools/list, resources/list/read, ping, one notification, up to 5 requests sent twice (adjacent or at the end); delivered fully pipelined or one at a time, then stdin closed; every session is run twice (as generated, and reversed one-at-a-time) and equal requests must get equal answers; non-trivial = >=1 failing request followed by >=1 succeeding one, or pipelined with >=10 requests; distinct by session hash";
 
 fn arb_req() -> BoxedStrategy<Req> {
     prop_oneof![
@@ -93,7 +93,25 @@ fn arb_req() -> BoxedStrategy<Req> {
 
 fn strat(t: Tier) -> BoxedStrategy<Session> {
     let cfg = GenCfg::basic().secs(2).days(2, t.pick(8, 12)).splits(SplitMode::Terminating).dividends(true).years(2015, 2023);
-    (lgen::ledger_strategy(cfg), proptest::collection::vec(arb_req(), 5..t.pick(30, 60)), any::<bool>()).prop_map(|(gl, reqs, pipelined)| Session { gl, reqs, pipelined }).boxed()
+    // some requests are sent twice (the copy right after the original, or at the end): a repeated
+    // request must get the same answer again, whatever the first attempt left behind
+    (lgen::ledger_strategy(cfg), proptest::collection::vec(arb_req(), 5..t.pick(30, 60)), any::<bool>(), proptest::collection::vec((any::<u16>(), any::<bool>()), 0..6))
+        .prop_map(|(gl, mut reqs, pipelined, dups)| {
+            for (pick, adjacent) in dups {
+                let i = (pick as usize * reqs.len()) >> 16;
+                let copy = reqs[i].clone();
+                if matches!(copy, Req::Notification) {
+                    continue;
+                }
+                if adjacent {
+                    reqs.insert(i + 1, copy);
+                } else {
+                    reqs.push(copy);
+                }
+            }
+            Session { gl, reqs, pipelined }
+        })
+        .boxed()
 }
 
 const FX_CURS: [&str; 6] = ["USD", "EUR", "JPY", "usd", "Chf", "AUD"];
